@@ -473,6 +473,10 @@ class Prover:
         d = depth + 1
         if k == "int":
             return (t[1], t[1])
+        if k == "field" and self.body.kind == "Closure" and t[1] in (("param", 1), ("deref", ("param", 1))):
+            cr = self._captured_scalar_range(t, d)
+            if cr is not None:
+                return cr
         if k == "param":
             tr = self.ty_range_of_local(t[1])
             if self.body.kind == "Closure" and t[1] == 2:
@@ -570,8 +574,20 @@ class Prover:
         if k in ("index", "cindex"):
             # element of a byte array / slice
             return self._elem_range(t)
+        if k == "after" and util.is_call(t[1]) and len(t[1]) > 3:
+            # a scalar that a closure handed to this call captured by `&mut` (a counter advanced in
+            # `iter.fold(.., |..| { *index = ..; })`): afterwards it is what it was, or something the
+            # closure stored there
+            r_ = self._after_closure_call(t, bb, d)
+            if r_ is not None:
+                return r_
+            return TOP
         if k == "after" or k == "upd":
             return TOP
+        if k == "deref" or (k == "field" and self.body.kind == "Closure" and t[1] in (("param", 1), ("deref", ("param", 1)))):
+            cr = self._captured_scalar_range(t, d)
+            if cr is not None:
+                return cr
         if k == "deref":
             # pointee of a reference parameter
             if t[1][0] == "param":
@@ -584,6 +600,89 @@ class Prover:
                 return meet(tr, pr) if pr != TOP else tr
             return TOP
         return TOP
+
+    # ---------------------------------------------------------------- scalars captured by closures
+    def _closure_stores(self, cpath, k):
+        """join of the ranges of everything the closure `cpath` stores to the scalar behind its
+        capture k (a `&mut` to a reference held by the parent), None when it stores nothing there"""
+        key = ("cstore", cpath, k)
+        if key in self.w.__dict__.setdefault("_cstores", {}):
+            return self.w._cstores[key]
+        # while computing: nothing is assumed about the old value beyond its type
+        cb = self.fb.body(cpath)
+        cty = cb.local_ty(1).peel_refs() if cb is not None and cb.local_ty(1) is not None else None
+        ups = cty.d.get("upvars", []) if cty is not None and cty.k == "closure" else []
+        sty = self.fb.ty(ups[k]) if k < len(ups) else None
+        while sty is not None and sty.k == "ref":
+            sty = sty.to
+        self.w._cstores[key] = TYPE_RANGE.get(sty.s, TOP) if sty is not None else TOP
+        cp = self.w.prover(cpath)
+        out = None
+        if cp is not None:
+            loc = ("deref", ("deref", ("field", ("deref", ("param", 1)), k)))
+            for bb_, st_ in cp.se.final_states.items():
+                v = st_.get(loc)
+                if v is not None and v != loc:
+                    out = join(out, cp.rng(v, None))
+        self.w._cstores[key] = out
+        return out
+
+    def _after_closure_call(self, t, bb, d):
+        call, old = t[1], t[3]
+        info = self.se.term_info.get(call[3][1], {}) if call[3][0] == self.se.fn else {}
+        cls = [a for a in info.get("locargs", ()) if isinstance(a, tuple) and a and a[0] == "agg" and len(a) > 4 and a[1] == "closure"]
+        if not cls:
+            return None
+        r = self._rng(old, bb, d)
+        for cl in cls:
+            for k_, c in enumerate(cl[4]):
+                if c[0] == "ref" and len(c) > 2 and c[2]:
+                    s_ = self._closure_stores(cl[2], k_)
+                    if s_ is not None:
+                        r = join(r, s_)
+        return r
+
+    def _captured_scalar_range(self, t, d):
+        """in a closure body: the scalar behind capture k (`**env.k`): what the parent had there when
+        the closure was made, or what the closure itself stored"""
+        if self.body.kind != "Closure":
+            return None
+        x = t
+        while x[0] == "deref":
+            x = x[1]
+        if not (x[0] == "field" and x[1] in (("param", 1), ("deref", ("param", 1))) and isinstance(x[2], int)) or x is t and False:
+            return None
+        k = x[2]
+        cty = self.body.local_ty(1)
+        cty = cty.peel_refs() if cty is not None else None
+        ups = cty.d.get("upvars", []) if cty is not None and cty.k == "closure" else []
+        if k >= len(ups):
+            return None
+        uty = self.fb.ty(ups[k])
+        # only a captured reference to a reference to an integer (`&mut &mut u8`, `&&u8`): the scalar behind
+        if not (uty.k == "ref" and uty.to is not None and uty.to.k == "ref" and uty.to.to is not None and uty.to.to.k == "int"):
+            return None
+        parent = self.body.d.get("parent")
+        pse = self.ctx.wrap.run(parent) if parent else None
+        pp = self.w.prover(parent) if parent else None
+        if pse is None or pp is None:
+            return None
+        made = [(bi, v) for (bi, si), (loc, v) in pse.assigns.items() if v[0] == "agg" and v[1] == "closure" and v[2] == self.se.fn]
+        if len(made) != 1 or k >= len(made[0][1][4]):
+            return None
+        bi, cl = made[0]
+        c = cl[4][k]
+        if c[0] != "ref":
+            return None
+        held = pse.read(pse.in_state.get(bi, {}), c[1])        # the reference the parent holds
+        tgt = held[1] if held[0] == "ref" else ("deref", held)
+        if tgt[0] == "deref" and tgt[1][0] == "param":
+            r_in = pp._rng0(tgt, bi, d)           # (numnorm would drop the deref: the pointee is meant)
+        else:
+            r_in = pp._rng(util.numnorm(tgt), bi, d)
+        r_in = meet(r_in, TYPE_RANGE.get(uty.to.to.s, TOP))
+        own = self._closure_stores(self.se.fn, k)
+        return join(r_in, own) if own is not None else r_in
 
     def _by_type(self, t):
         if t[0] == "call" and len(t) > 3:
